@@ -75,6 +75,7 @@ _GEN_RE = re.compile(r'(\d+) states generated, (\d+) distinct states found')
 _DEPTH_RE = re.compile(r'The depth of the complete state graph search is (\d+)')
 _INV_RE = re.compile(r'Error: Invariant (\S+) is violated')
 _PROP_RE = re.compile(r'Error: Action property (\S+) is violated|Error: Temporal properties were violated')
+_ASSERT_RE = re.compile(r'The first argument of Assert evaluated to FALSE; the second argument was:')
 _COV_RE = re.compile(r'^<(\w+) line \d+, col \d+ to line \d+, col \d+ of module (\w+)>: (\d+):(\d+)')
 
 
@@ -123,7 +124,7 @@ def run_tlc(module: str, cfg: str, *, constants: dict | None = None, module_text
         spec_file = os.path.join(sc, "gen-" + run_id, module + ".tla")
         with open(spec_file, "w") as f:
             f.write(module_text)
-    cmd = ["java", "-XX:+UseParallelGC", "-Xss16m", f"-DTLA-Library={SPEC}", "-cp", f"{TLA_JAR}:{TLA_DEPS}", "tlc2.TLC",
+    cmd = ["java", "-XX:+UseParallelGC", "-XX:ParallelGCThreads=4", "-Xmx6g", "-Xss16m", f"-DTLA-Library={SPEC}", "-cp", f"{TLA_JAR}:{TLA_DEPS}", "tlc2.TLC",
            "-workers", str(workers), "-metadir", meta, "-noGenerateSpecTE",
            "-config", cfg_path]
     if coverage:
@@ -155,6 +156,11 @@ def run_tlc(module: str, cfg: str, *, constants: dict | None = None, module_text
         res.error = f"TLC timed out after {timeout}s"
     res.wall = time.time() - t0
     shutil.rmtree(meta, ignore_errors=True)
+    lines_all = out.splitlines()
+    for li, line in enumerate(lines_all):
+        if _ASSERT_RE.search(line) and res.violated is None:
+            nxt = lines_all[li + 1].strip().strip('"') if li + 1 < len(lines_all) else "Assert"
+            res.violated = nxt or "Assert"
     for line in out.splitlines():
         m = _PRINT_RE.match(line)
         if m and m.group(1) in tags:
